@@ -51,3 +51,45 @@ end
 def imodule (m : List IDecl) : String := "Ns(\"\",[" ++ idecls [""] m ++ "])"
 
 end WrapModel.IDump
+
+/-! ### C++-spelling dump: names, order, scope and `to_cpp()` only (C02 / C08 / C13 oracle) -/
+namespace WrapModel.IDump
+open WrapModel WrapModel.Inst WrapModel.Dump
+
+def cArgs (as : List Arg) : String :=
+  ",".intercalate (as.map fun a => tyToCpp a.ctype ++ " " ++ a.name ++ (match a.default with | some d => "=" ++ d | none => ""))
+
+def cMethod (tag : String) (m : IMethod) : String :=
+  "  " ++ tag ++ " " ++ m.name ++ " | " ++ m.toCpp ++ " | " ++ retToCpp m.ret ++ " | (" ++ cArgs m.args ++ ")"
+    ++ (if m.isConst then " const" else "") ++ "\n"
+
+def cClass (c : IClass) : String :=
+  "C " ++ c.name ++ " | " ++ c.toCpp ++ " | " ++ "::".intercalate c.nsPath ++ " | "
+    ++ (match c.parentClass with | some p => tnToCpp p | none => "-") ++ (if c.isVirtual then " | virtual" else "") ++ "\n"
+    ++ String.join (c.ctors.map fun k => "  K " ++ k.name ++ " | " ++ k.toCpp ++ " | (" ++ cArgs k.args ++ ")\n")
+    ++ String.join (c.methods.map (cMethod "M"))
+    ++ String.join (c.statics.map (cMethod "S"))
+    ++ String.join (c.props.map fun p => "  P " ++ p.name ++ " | " ++ tyToCpp p.ctype ++ "\n")
+    ++ String.join (c.ops.map fun o => "  O " ++ o.sym ++ " | " ++ retToCpp o.ret ++ " | (" ++ cArgs o.args ++ ")\n")
+    ++ String.join (c.enums.map fun e => "  E " ++ e.name ++ "\n")
+    ++ String.join (c.dunders.map fun d => "  U " ++ d.1 ++ " | (" ++ cArgs d.2 ++ ")\n")
+
+mutual
+  def cDecl : IDecl → String
+    | .fwd _ t _ => "W " ++ tnToCpp t ++ "\n"
+    | .incl h => "I " ++ h ++ "\n"
+    | .enum e => "E " ++ e.name ++ "\n"
+    | .var v => "V " ++ v.name ++ " | " ++ tyToCpp v.ctype ++ "\n"
+    | .cls c => cClass c
+    | .func f => "F " ++ f.name ++ " | " ++ f.toCpp ++ " | " ++ "::".intercalate f.nsPath ++ " | " ++ retToCpp f.ret
+        ++ " | (" ++ cArgs f.args ++ ")\n"
+    | .decl d => "D " ++ d.name ++ " | " ++ d.toCpp ++ " | " ++ "::".intercalate d.nsPath ++ "\n"
+    | .ns n ds => "N " ++ n ++ " {\n" ++ cDecls ds ++ "}\n"
+  def cDecls : List IDecl → String
+    | [] => ""
+    | d :: ds => cDecl d ++ cDecls ds
+end
+
+def cppModule (m : List IDecl) : String := cDecls m
+
+end WrapModel.IDump
